@@ -8,8 +8,10 @@ Machine-checked here: **`exclude_paths` is a pure filter in positional mode** (`
 the restricted result is the unrestricted result minus the entries at or below an excluded path, for
 every pair of values, every set of excluded paths, any size and nesting), how the model's skip tests
 decide (literal exclusion is exact membership of the level's path; an excluded child contributes
-nothing; reported entries are filtered by the same test), and the two boundary witnesses.  For
-`exclude_regex_paths`, `include_paths` and the default alignment mode the property is decided on the
+nothing; reported entries are filtered by the same test), and the two boundary witnesses.  The same
+equation holds for every restriction of the exclusion kind (`C13_restriction_is_filter`), in particular for
+anchored `exclude_regex_paths` alone or combined with `exclude_paths` (`C13_exclude_regex_is_filter`).  For
+general regular expressions, `include_paths` and the default alignment mode the property is decided on the
 implementation by the harness, with the model compared under the same options.
 -/
 namespace Diff
@@ -52,7 +54,7 @@ theorem C13_excluded_child_silent (cfg : DCfg) (al : Align) (hashOf : PyVal → 
   simp only [diffPairs, h, ↓reduceIte, Result.empty_append]
 
 /-- some level on the way from the root to `st` (the root and `st` included) is an excluded path -/
-def blocked (E : List String) (st : List Step) : Bool := hit E [] || blockedFrom E 0 st
+def blocked (E : List String) (st : List Step) : Bool := hit E [] || blockedFrom (hit E) 0 st
 
 /-- **`exclude_paths` is a pure filter (positional mode, threshold 0).**  For every pair of values, every
 list `E` of excluded paths, every alignment oracle and hasher: the entries reported under
@@ -68,7 +70,7 @@ theorem C13_exclude_is_filter (cfg : DCfg) (hp : Pos cfg) (he0 : cfg.exclude = [
     simp
   · have h0' : hit E [] = false := by simpa using h0
     simp only [h0', Bool.false_eq_true, if_false, blocked, Bool.false_or]
-    exact filt_V hp he0 E al hashOf a b [] h0'
+    exact filt_V hp he0 (restrict_exclude hp E) al hashOf a b [] h0'
 
 /-- the same for the complete result when add/remove pairs are not merged (`report_repetition=True`;
 in positional mode an added and a removed item never share a path) -/
@@ -92,6 +94,64 @@ theorem C13_nothing_below_excluded (cfg : DCfg) (hp : Pos cfg) (he0 : cfg.exclud
       blocked E e.2.steps = false := by
   intro e he
   rw [C13_exclude_is_filter cfg hp he0 E al hashOf a b] at he
+  simpa using (List.mem_filter.1 he).2
+
+/-- some level on the way from the root to `st` (both included) is skipped by the test `H` -/
+def blockedBy (H : List Step → Bool) (st : List Step) : Bool := H [] || blockedFrom H 0 st
+
+/-- **Every path restriction of the exclusion kind is a pure filter (positional mode, threshold 0).**  For any
+restricted configuration whose skip test is `H` (same keys, same mode): the entries reported are exactly the
+entries of the unrestricted run with no skipped level on their way — whatever `H` is. -/
+theorem C13_restriction_is_filter (cfg : DCfg) (hp : Pos cfg) (he0 : cfg.exclude = []) {cfgX : DCfg} {H : List Step → Bool}
+    (hR : Restrict cfg cfgX H) (al : Align) (hashOf : PyVal → String) (a b : PyVal) :
+    keepReported cfgX (if skipSteps cfgX [] then ({} : Result) else diffV cfgX al hashOf [] a b).tree =
+      (diffV cfg al hashOf [] a b).tree.filter (fun e => !blockedBy H e.2.steps) := by
+  have hk : ∀ t, keepReported cfgX t = t.filter (fun e => !H e.2.steps) := by
+    intro t
+    unfold keepReported
+    congr 1
+    funext e
+    rw [hR.skip]
+  rw [hk, hR.skip]
+  by_cases h0 : H [] = true
+  · simp only [h0, if_true, blockedBy, Bool.true_or, Bool.not_true]
+    simp
+  · have h0' : H [] = false := by simpa using h0
+    simp only [h0', Bool.false_eq_true, if_false, blockedBy, Bool.false_or]
+    exact filt_V hp he0 hR al hashOf a b [] h0'
+
+/-- **Anchored `exclude_regex_paths` (`^<path>(\[|$)`), alone or together with `exclude_paths`, is a pure filter**
+(positional mode, threshold 0): the restricted result is the unrestricted result minus the entries that have, on their
+way from the root, a level whose path text is one of the patterns' paths or continues one with `[`, or is one of the
+literally excluded paths. -/
+theorem C13_exclude_regex_is_filter (cfg : DCfg) (hp : Pos cfg) (he0 : cfg.exclude = []) (E R : List String) (al : Align)
+    (hashOf : PyVal → String) (a b : PyVal) :
+    keepReported (withBoth cfg E R) (if skipSteps (withBoth cfg E R) [] then ({} : Result) else diffV (withBoth cfg E R) al hashOf [] a b).tree =
+      (diffV cfg al hashOf [] a b).tree.filter (fun e => !blockedBy (fun st => hitR R st || hit E st) e.2.steps) :=
+  C13_restriction_is_filter cfg hp he0 (restrict_both hp E R) al hashOf a b
+
+/-- the same for the complete result (`report_repetition=True`) -/
+theorem C13_exclude_regex_is_filter_deepDiff (cfg : DCfg) (hp : Pos cfg) (he0 : cfg.exclude = []) (hr : cfg.reportRepetition = true)
+    (E R : List String) (al : Align) (hashOf : PyVal → String) (a b : PyVal) :
+    (deepDiff (withBoth cfg E R) al hashOf a b).tree =
+      (deepDiff cfg al hashOf a b).tree.filter (fun e => !blockedBy (fun st => hitR R st || hit E st) e.2.steps) := by
+  have hr' : (withBoth cfg E R).reportRepetition = true := hr
+  have hk : keepReported cfg (diffV cfg al hashOf [] a b).tree = (diffV cfg al hashOf [] a b).tree := by
+    unfold keepReported
+    rw [List.filter_eq_self]
+    intro e _
+    simp [skipSteps_none hp he0]
+  unfold deepDiff
+  simp only [hr, hr', if_true, skipSteps_none hp he0, Bool.false_eq_true, if_false, hk]
+  exact C13_exclude_regex_is_filter cfg hp he0 E R al hashOf a b
+
+/-- content under a matched path never shows -/
+theorem C13_nothing_below_matched (cfg : DCfg) (hp : Pos cfg) (he0 : cfg.exclude = []) (E R : List String) (al : Align)
+    (hashOf : PyVal → String) (a b : PyVal) :
+    ∀ e ∈ keepReported (withBoth cfg E R) (if skipSteps (withBoth cfg E R) [] then ({} : Result) else diffV (withBoth cfg E R) al hashOf [] a b).tree,
+      blockedBy (fun st => hitR R st || hit E st) e.2.steps = false := by
+  intro e he
+  rw [C13_exclude_regex_is_filter cfg hp he0 E R al hashOf a b] at he
   simpa using (List.mem_filter.1 he).2
 
 /-! Non-vacuity: a positional configuration. -/
